@@ -4,6 +4,8 @@
    push <limit|-> <pos> <a,b,c|->               => <o<pos>|L|S>,... fin=<pos>
    udp <id> <b2> <l1.l2..|-> <qtype> <client|-> <cfg|-> <rb2> <rb3> <n_an> <an_len> <n_ar> <ar_len> <size:dlen|->
                                                 => Ok len= tc= id= cnt=q,a,n,r opt= b2=
+   srv <id> <b2> <qd> <nq> <labels> <qtype> <-|one:size:ver|dup:size|bad> <cfg|-> <none|err:rc|ok:rb2:rb3:n_an:an_len:n_ar:ar_len:(-|size/dlen)>
+                                                => Ok None | Ok len= tc= id= cnt= opt= b2= b3= ottl=   (one datagram through the whole DgramServer)
    frame <hex>                                  => Ok <hex> | Err 1
    conn <hexchunk> ...                          => open|closed D:id:len.. F:id:len.. X   (dispatches, then direct FORMERRs (only on a connection that stays open:
         after DisconnectWithoutFlush queued responses are not written), then the disconnect) *)
@@ -32,6 +34,23 @@ let handle = function
       show_outcome (fun (((((l, tc), i), (((q, a), n), r)), ho), b2) ->
         Printf.sprintf "len=%s tc=%s id=%s cnt=%s,%s,%s,%s opt=%s b2=%s" (show_n l) (b01 tc) (show_n i)
           (show_n q) (show_n a) (show_n n) (show_n r) (b01 ho) (show_n b2)) r
+  | ["srv"; id; b2; qd; nq; labels; qtype; opt; cfg; svc] ->
+      let o = (match String.split_on_char ':' opt with
+        | ["-"] -> OptNone | ["one"; sz; v] -> OptOne (n_of sz, n_of v) | ["dup"; sz] -> OptDup (n_of sz) | ["bad"] -> OptBad
+        | _ -> failwith "opt") in
+      let sv = (match String.split_on_char ':' svc with
+        | ["none"] -> None
+        | ["err"; rc] -> Some (Inr (n_of rc))
+        | ["ok"; rb2; rb3; n_an; an_len; n_ar; ar_len; os] ->
+            let ro = if os = "-" then None else (match String.split_on_char '/' os with [a; b] -> Some (n_of a, n_of b) | _ -> failwith "ropt") in
+            Some (Inl ((((((n_of rb2, n_of rb3), n_of n_an), n_of an_len), n_of n_ar), n_of ar_len), ro))
+        | _ -> failwith "svc") in
+      let r = c16_srv (n_of id) (n_of b2) (n_of qd) (n_of nq) (List.map n_of (split_on '.' labels)) (n_of qtype) o (opt_n cfg) sv in
+      show_outcome (function
+        | None -> "None"
+        | Some (((((((l, tc), i), (((q, a), n), r)), ho), b2), b3), ottl) ->
+            Printf.sprintf "len=%s tc=%s id=%s cnt=%s,%s,%s,%s opt=%s b2=%s b3=%s ottl=%s" (show_n l) (b01 tc) (show_n i)
+              (show_n q) (show_n a) (show_n n) (show_n r) (b01 ho) (show_n b2) (show_n b3) (show_n ottl)) r
   | ["frame"; h] -> show_outcome hex_of_bytes (c16_frame_out (bytes_of_hex h))
   | "conn" :: chunks ->
       let (op, evs) = c16_conn (List.map bytes_of_hex chunks) in
